@@ -182,7 +182,7 @@ def witness_cases(draw, pattern):
         rows.append([o, max(o, c) + up, min(o, c) - dn, c])
         pc = c
     m = draw(st.sampled_from((2, 2, 3, 4)))
-    breaks = draw(st.sampled_from((None, None) + {"doji": ("body",), "dojistar": ("prev_body", "body", "gap"), "hammer": ("body", "lower", "upper", "near"), "inv_hammer": ("body", "upper", "lower", "gap")}[pattern]))
+    breaks = draw(st.sampled_from((None, None) + {"doji": ("body",), "dojistar": ("prev_body", "prev_window", "body", "gap"), "hammer": ("body", "lower", "upper", "near"), "inv_hammer": ("body", "upper", "lower", "gap")}[pattern]))
     return {"kind": "witness", "pattern": pattern, "history": rows, "m": m, "break": breaks, "extra": [draw(st.integers(0, 30)) for _ in range(4)]}
 
 
@@ -199,11 +199,16 @@ def _build_witness(case):
     body = lambda r: abs(r[0] - r[3])  # noqa: E731
     if pat == "dojistar":
         # candle i-1: long body relative to the 10 bodies before/including it
+        if br == "prev_window":
+            # uneven history: one huge body ten candles before the star - inside the 10-candle window that ends at
+            # the previous candle (whichever way it is read), outside a window that ends at the star itself
+            r = rows[-9]
+            rows[-9] = [r[0], r[0] + 6005, r[2], r[0] + 6000]
         s9 = sum(body(r) for r in rows[-9:])
         s10 = sum(body(r) for r in rows[-10:])
         need = max(m * s9 / (10 - m), m * s10 / 10)
         up = ex[0] % 2 == 0
-        if br == "prev_body":
+        if br in ("prev_body", "prev_window"):
             b = max(1, int(min(s9 / 10, s10 / 10) / m))
         else:
             b = int(need) + 2 + ex[1]
